@@ -59,6 +59,13 @@ def run(tier, seed):
             L = rng.choice(loop_limits)
             cases.append((mk(G.loop_program(form, route, "Infinity" if form not in ("for_of_array", "for_in") else str(L * 20 + 200), job=True), {"loop": L}),
                           {"kind": "over", "limit": "loop", "L": L, "what": "%s/job:%s" % (form, route), "step": "jobs"}))
+    for form in G.SUSPENDING_LOOPS:
+        for L in ([10, 100] if not thorough else [1, 3, 10, 100, 1000]):
+            cases.append((mk(G.suspending_program(form, "Infinity"), {"loop": L}),
+                          {"kind": "over", "limit": "loop", "L": L, "what": "suspending:%s" % form, "step": "jobs", "forbid": ["LOOP-DONE", "THEN", "REJECTED"]}))
+            if L >= 10:
+                cases.append((mk(G.suspending_program(form, max(0, L // 3 - 1)), {"loop": L}),
+                              {"kind": "under", "L": L, "what": "suspending:%s" % form, "full": ["END", "LOOP-DONE", "THEN"]}))
     rec_limits = [8, 40, 200] if not thorough else [1, 2, 3, 8, 40, 200, 400]
     for kind in G.RECURSION:
         for R in rec_limits:
@@ -112,7 +119,7 @@ def run(tier, seed):
             leaked = [m for m in trace if m.split(" ")[0] in FORBIDDEN]
             if exp["step"] == "jobs":
                 # markers of the synchronous part are legitimate; the job itself has no wrapper: nothing to forbid
-                leaked = []
+                leaked = [m for m in trace if m in exp.get("forbid", [])]
             if leaked:
                 violation("%s: after the %s limit was hit, code of the unwound activations still ran: %s" % (exp["what"], exp["limit"], leaked[:6]), i)
                 continue
@@ -132,8 +139,9 @@ def run(tier, seed):
             if not entry_c.startswith("value:") or not jobs_c.startswith("value:"):
                 violation("%s stays under the limit %d but was stopped / failed: %s / %s" % (exp["what"], exp["L"], entry_c[:80], jobs_c[:60]), i)
                 continue
-            got = [m for m in trace if m in FULL]
-            if got != FULL or "C1" in trace or "C2" in trace:
+            full = exp.get("full", FULL)
+            got = [m for m in trace if m in full]
+            if got != full or "C1" in trace or "C2" in trace or "REJECTED" in trace:
                 violation("%s stays under the limit %d but its marker sequence is %s" % (exp["what"], exp["L"], trace[-8:]), i)
                 continue
             distinct.add(norm_hash("u" + exp["what"] + str(exp["L"])))
@@ -145,7 +153,7 @@ def run(tier, seed):
              "continue/return in finally), entered by eval or by a host call, plus job routes and under-limit twins; recursion and stack programs likewise; "
              "non-trivial = the expected verdict was observed with all marker and work-bound checks; distinct by (form, route, limit)",
         samples=[cases[0][1], cases[len(cases) // 2][1], cases[-1][1]],
-        extra={"cases": len(cases), "loop_forms": len(G.LOOPS), "routes": len(G.ROUTES), "job_routes": len(G.JOB_ROUTES), "recursion_kinds": len(G.RECURSION),
+        extra={"cases": len(cases), "loop_forms": len(G.LOOPS), "routes": len(G.ROUTES), "job_routes": len(G.JOB_ROUTES), "suspending_loops": len(G.SUSPENDING_LOOPS), "recursion_kinds": len(G.RECURSION),
                "cases_by_construct": seen_kinds},
         min_nontrivial=100)
 
